@@ -357,6 +357,62 @@ def judge_history(R, c, r, stats):
                 return
 
 
+def judge_details_wrenches(R, c, r, stats):
+    """The wrenches returned by contact_forces(..., return_details=True): (a) the same call must give the same wrench with
+    and without details (base, swapped, moved; > 5 % of the force magnitude is a failure, any other difference breaks the
+    correspondence - the unchanged code is bit-identical); (b) the property clauses action-reaction, swap symmetry and
+    equivariance under the common motion are judged on the details-on wrenches themselves whenever they are not
+    bit-identical to the details-off wrenches (which are judged by judge())."""
+    on = dict(base=r["details"], swap=r.get("details_swap"), moved=r.get("details_moved"))
+    off = dict(base=r["base"], swap=r["swap"], moved=r["moved"])
+    if any(v is None for v in on.values()):
+        return
+    G = c["g"]
+    Ls = max(hg.body_size(c["b1"]), hg.body_size(c["b2"]))
+    Ls += dev([c["b1"]["pose"][i][3] for i in range(3)], [c["b2"]["pose"][i][3] for i in range(3)])
+    fm = max([norm(x["w12"][:3]) for x in on.values()] + [norm(x["w12"][:3]) for x in off.values()])
+    floor = 1e-6 * r["internals"].get("force_abs_sum", 0.0)
+    fm = max(fm, floor)
+    fscale = max(c["b1"].get("E", 1.0), c["b2"].get("E", 1.0)) * min(hg.body_size(c["b1"]), hg.body_size(c["b2"])) ** 3
+    if fm <= 1e-9 * fscale:
+        return
+    tq = fm * Ls
+    stats["details_wrench_cases"] = stats.get("details_wrench_cases", 0) + 1
+    identical = True
+    for name in ("base", "swap", "moved"):
+        a, b = on[name], off[name]
+        if a["w12"] == b["w12"] and a["w21"] == b["w21"] and a["inter"] == b["inter"]:
+            continue
+        identical = False
+        d = max(dev(a["w12"][:3], b["w12"][:3]) / fm, dev(a["w21"][:3], b["w21"][:3]) / fm,
+                dev(a["w12"][3:], b["w12"][3:]) / tq, dev(a["w21"][3:], b["w21"][3:]) / tq)
+        if a["inter"] != b["inter"] or d > TOL:
+            R.failure(f"contact_forces({name} call, return_details=True) returns other wrenches than the same call without details: "
+                      f"relative deviation {d:.4g} (> 5 % of the force magnitude {fm:.6g}); with details w12 = {a['w12']}, without "
+                      f"w12 = {b['w12']}", c, site="contact_forces(return_details=True)")
+            break
+        R.corr_broken.append(f"contact_forces({name} call): wrenches with and without details differ by {d:.3g}")
+    if identical:
+        return
+    ba, sw, mv = on["base"], on["swap"], on["moved"]
+    checks = [
+        ("action-reaction with details: f12 + f21", dev(ba["w12"][:3], [-x for x in ba["w21"][:3]]) / fm),
+        ("swap with details: f21(b2,b1) vs f12(b1,b2)", dev(sw["w21"][:3], ba["w12"][:3]) / fm),
+        ("swap with details: f12(b2,b1) vs f21(b1,b2)", dev(sw["w12"][:3], ba["w21"][:3]) / fm),
+        ("swap with details: torque21(b2,b1) vs torque12(b1,b2)", dev(sw["w21"][3:], ba["w12"][3:]) / tq),
+        ("swap with details: torque12(b2,b1) vs torque21(b1,b2)", dev(sw["w12"][3:], ba["w21"][3:]) / tq),
+        ("common motion with details: f12", dev(mv["w12"][:3], rot_apply(G, ba["w12"][:3])) / fm),
+        ("common motion with details: f21", dev(mv["w21"][:3], rot_apply(G, ba["w21"][:3])) / fm),
+        ("common motion with details: torque12", dev(mv["w12"][3:], rot_apply(G, ba["w12"][3:])) / tq),
+        ("common motion with details: torque21", dev(mv["w21"][3:], rot_apply(G, ba["w21"][3:])) / tq),
+    ]
+    for name, val in checks:
+        if val > TOL:
+            R.failure(f"{name}: relative deviation {val:.4g} > 5 % (force magnitude {fm:.6g}; the details-off wrenches of the same "
+                      f"calls are judged separately)", c, site="contact_forces(return_details=True)")
+            break
+
+
 def correspondence(R, c, r, stats):
     """model / bookkeeping checks that need no tolerance of the property"""
     d = []
@@ -476,8 +532,7 @@ def run(tier, seed, replay=None):
         if r is None or "exc" in r or "details" not in r:
             continue
         dt = r["details"]
-        if dt["inter"] != r["base"]["inter"] or dt["w12"] != r["base"]["w12"] or dt["w21"] != r["base"]["w21"]:
-            R.corr_broken.append("contact_forces(return_details=True) returns other wrenches than contact_forces()")
+        judge_details_wrenches(R, c, r, stats)
         if not dt["inter"]:
             if dt["keys"]:
                 R.failure("details of a non-intersecting pair are not empty", c, site="ContactSurface.make_details")
